@@ -134,13 +134,20 @@ class Must:
         out = []
         for d, vals, comp in self.raw_at(p):
             out.extend(self.normalise(d, vals, comp))
-        out = self._expand_phi(out, _seen if _seen is not None else {p}, at=p)
-        extra = []
-        for a in out:
-            for b in (canon_okness(a), canon_arith(a)):
-                if b is not None and b not in out and b not in extra:
-                    extra.append(b)
-        return out + extra
+        seen = _seen if _seen is not None else {p}
+        out = self._expand_phi(out, seen, at=p)
+        for _round in range(3):
+            extra = []
+            for a in out:
+                for b in canon_all(a):
+                    if b not in out and b not in extra:
+                        extra.append(b)
+            if not extra:
+                break
+            # a restated atom may itself be about a merged value (`ensure(a && b, e)?`: the flag is a merge of `b` and false)
+            more = self._expand_phi(extra, seen, at=p)
+            out = out + [b for b in more if b not in out]
+        return out
 
     def _expand_phi(self, atoms, seen, at=None, def_facts=True):
         """An atom about a value merged from several definitions (`phi`) that only ONE of the definitions can satisfy
@@ -203,6 +210,37 @@ class Must:
     def discr_names(self, term_op, vals):
         """Map discriminant values to variant names using type info where possible."""
         return None
+
+
+def canon_all(a):
+    """Every restatement of atom `a` through the std view adapters (closed under repetition, `a` itself excluded)."""
+    out = []
+    work = [a]
+    while work and len(out) < 12:
+        x = work.pop()
+        for b in (canon_okness(x), canon_arith(x)):
+            if b is not None and b != a and b not in out:
+                out.append(b)
+                work.append(b)
+        for b in canon_value_adapters(x):
+            if b != a and b not in out:
+                out.append(b)
+                work.append(b)
+    return out
+
+
+def canon_value_adapters(a):
+    """`o.ok_or(e)` / `o.ok_or_else(f)` is Ok exactly when `o` is Some; `c.then_some(v)` is Some exactly when `c` holds."""
+    if a[0] not in ("ok", "notok") or not isinstance(a[1], tuple):
+        return []
+    t = a[1]
+    while t[0] in ("ref", "deref"):
+        t = t[1]
+    if t[0] == "call" and len(t[2]) == 2 and t[1] in ("ok_or", "ok_or_else", "map_err", "map", "inspect", "inspect_err"):
+        return [(a[0], t[2][0])]      # these keep the Ok/Some-ness of their receiver
+    if t[0] == "call" and len(t[2]) == 2 and t[1] == "then_some":
+        return [b for b in bool_atoms(t[2][0], a[0] == "ok") if b[0] != "contra"]
+    return []
 
 
 def canon_arith(a):
